@@ -94,3 +94,33 @@ def ref_arnoldi_subdiag(A, v, m):
             break
         V[:, j + 1] = w / sub[j]
     return sub
+
+
+MAPFORMS = ('identity_alias', 'reversal_view', 'buffer')
+
+
+def special(rng, n, form, vreal):
+    """maps given as *functions* that do not allocate a fresh result: the identity returning its argument, the reversal
+    permutation (real symmetric, eigenvalues +-1) returning a view of its argument, and a dense Hermitian matrix whose
+    product is written into a buffer owned by the callback.  -> dict(A, v, kdim, lam, reach, Afunc)"""
+    v = rng.standard_normal(n) + (0 if vreal else 1j * rng.standard_normal(n))
+    v = v * float(10.0 ** rng.uniform(-1, 1))
+    if form == 'identity_alias':
+        return dict(A=np.identity(n), v=v, kdim=1, lam=np.ones(n), reach=np.ones(1), Afunc=lambda x: x)
+    if form == 'reversal_view':
+        A = np.fliplr(np.identity(n))
+        sym, asym = (v + v[::-1]) / 2, (v - v[::-1]) / 2
+        tol = 1e-6 * np.linalg.norm(v)
+        reach = np.array([lam for lam, part in ((1.0, sym), (-1.0, asym)) if np.linalg.norm(part) > tol])
+        lam = np.array([1.0] * ((n + 1) // 2) + [-1.0] * (n // 2))
+        return dict(A=A, v=v, kdim=len(reach), lam=lam, reach=reach, Afunc=lambda x: x[::-1])
+    if form == 'buffer':
+        P = build(rng, n, 'cherm', 'separated', n, vreal=vreal)
+        buf = np.zeros(n, dtype=complex)
+        A = P['A']
+        def Afunc(x):
+            buf[...] = A @ x
+            return buf
+        P['Afunc'] = Afunc
+        return P
+    raise ValueError(form)
